@@ -621,7 +621,11 @@ class G:
         if k < 0.85:
             return "ALTER TABLE %s ADD %sPARTITION (dt='1', h=2)" % (t, "IF NOT EXISTS " if ine else ""), N("ASTAlterTableStatement", table_name=tbl(t), expressions=(
                 N("ASTAlterAddPartitionExpression", if_not_exists=ine, partition=part),))
-        return "ALTER TABLE %s DROP %sPARTITION (dt='1', h=2)" % (t, "IF EXISTS " if ine else ""), N("ASTAlterTableStatement", table_name=tbl(t), expressions=(
+        # DROP PARTITION takes a range, not only key = value; a counter, not self.r, so that the rest of every stream stays as it was
+        self._n_drop = getattr(self, "_n_drop", 0) + 1
+        o1, o2 = [("<", ">="), ("=", "="), (">=", "<"), ("!=", "<="), ("=", ">"), ("<>", "=")][self._n_drop % 6]
+        part = N("ASTPartitionExpression", partitions=(cmpx(col("dt"), CMP[o1], lit("'1'")), cmpx(col("h"), CMP[o2], lit("2"))))
+        return "ALTER TABLE %s DROP %sPARTITION (dt%s'1', h %s 2)" % (t, "IF EXISTS " if ine else "", o1, o2), N("ASTAlterTableStatement", table_name=tbl(t), expressions=(
             N("ASTAlterDropPartitionExpression", if_exists=ine, partition=part),))
 
     def paren_case(self):
